@@ -1,10 +1,15 @@
 (* Correspondence + property predicates for C17 *)
-From Fnd Require Export Base.Prelude Model.Envs.
+From Fnd Require Export Base.Prelude Model.Envs Model.SharedMeta.
 
 (* threads: (goroutine id, transaction, keys); schedule: the order in which the harness let the
    invocations run (one entry per model instruction); per invocation: the keys found in its
    write-set, whether it ended without error, digest of its result run concurrently and run alone *)
-Inductive case := CCase (ths : list (N * N * list N)) (schedule : list nat) (obs : list (list N * bool * N * N)).
+Inductive case :=
+| CCase (ths : list (N * N * list N)) (schedule : list nat) (obs : list (list N * bool * N * N))
+| MCase (bits : list N) (schedule : list nat) (obs : list (list N * N * N)).
+    (* metadata operations (each sets one setting: bit) interleaved at the point where the metadata has been
+       loaded into the contract object; per invocation: the settings found in the record it saved,
+       digest of its result run concurrently and run alone *)
 
 Definition corr (c : case) : bool :=
   match c with
@@ -13,6 +18,14 @@ Definition corr (c : case) : bool :=
     bool_decide (cs_nil s = []) && Nat.eqb (length ths) (length obs) &&
     forallb (fun p => let '((_, stub, _), (keys, okflag, _, _)) := p in
                       bool_decide (default [] (cs_writes s !! stub) = keys) && okflag) (combine ths obs)
+  | MCase bits schedule obs =>
+    let s := m_meta_run [] (fun _ => 0%nat) bits schedule in
+    Nat.eqb (length bits) (length obs) &&
+    forallb (fun p => let '(i, (seen, _, _)) := p in
+                      match saved_of s i with
+                      | Some l => bool_decide (list_to_set l =@{gset N} list_to_set seen)
+                      | None => false
+                      end) (combine (seq 0 (length obs)) obs)
   end.
 
 Definition holds (c : case) : bool :=
@@ -20,7 +33,12 @@ Definition holds (c : case) : bool :=
   | CCase ths _ obs =>
     forallb (fun p => let '((_, _, ks), (keys, okflag, dc, ds)) := p in
                       okflag && bool_decide (keys = ks) && N.eqb dc ds) (combine ths obs)   (* its own writes, and the result it has alone *)
+  | MCase bits _ obs =>
+    forallb (fun p => let '(b, (seen, dc, ds)) := p in bool_decide (seen = [b]) && N.eqb dc ds) (combine bits obs)
   end.
 
 Definition label (c : case) : N :=
-  match c with CCase ths schedule _ => (N.of_nat (length ths) + 8 * N.of_nat (length schedule / 4))%N end.
+  match c with
+  | CCase ths schedule _ => (N.of_nat (length ths) + 8 * N.of_nat (length schedule / 4))%N
+  | MCase bits _ _ => (1000 + N.of_nat (length bits))%N
+  end.
